@@ -19,6 +19,8 @@ CLAIMED = {
  'C08': ('model_checking', 'symbolic execution of ceil/floor/trunc/round/nearbyint/rint/nearbyint_as_int/to_int kernels (hardware round* models and the conversion-based generic path); oracle = fp.roundToIntegral / fp.to_sbv for every float32 and float64', '5 C08', 'IR symbolic execution + SMT (QF_FP) per-lane equivalence'),
  'C17': ('model_checking', 'every scalar overload of xsimd_scalar.hpp named by the property executed symbolically and held to the same spec object as the batch kernels (all operand values), plus a spec-free differential: scalar overload vs lane 0 of the batch operation on broadcast operands, in one wrapper, for all operands; integer-exponent pow with abstracted multiplications and an unwinding assertion (|n| <= 64); elementary-function clause not decided', '5 C17', 'IR symbolic execution + SMT (QF_BV/QF_FP) equivalence with the shared specs; scalar-vs-lane differential query'),
  'C20': ('other', 'constant tables folded by clang from the real headers (sizes, register widths, alignments, list positions, is_base_of matrix, make_sized_batch, trait widths) read back from the IR; each relation of the property is one solver query with symbolic architecture/type indices (ground facts: degenerate solver use, said so); plus symbolic execution of every aligned load/store body: align attribute of each access divides A::alignment()', '5 C20', 'compile-time tables from the IR + SMT over symbolic (arch,type) indices; IR access-log alignment attributes'),
+ 'C16': ('model_checking', 'PARTIAL: ==/!=, real/imag/conj/neg/proj, + and -, isnan/isinf/isfinite exact (SMT FloatingPoint / bit-vectors, all operand bits); interleaved complex load/store value map, footprint and alignment on all 23 archs; *, /, fma family, norm, complex(op)real: the term extracted from the real kernel (arithmetic as uninterpreted functions) is interpreted over the reals and z3 NRA decides equality with the textbook formula plus a rounding-count bound - not an error bound; complex elementary functions not decided', '5 C16', 'IR symbolic execution + SMT (QF_FP/QF_BV) for the exact items; real-arithmetic abstraction (NRA identity + rounding count) for * / fma'),
+ 'C19': ('model_checking', 'bounded family of batch_constant / batch_bool_constant instantiations per (type, arch) lowered from the real headers: as_batch/get(symbolic i)/mask()/operators against the packs (folded constants: degenerate solver use, said so) and constant-vs-run-time API equivalence of select and swizzle on symbolic data', '5 C19', 'IR symbolic execution + SMT per-lane equivalence over a bounded instantiation family'),
 }
 NA = {
  'C10': 'no SMT theory contains exp/log/sin/erf/gamma: an ulp bound against the real-valued function cannot be expressed as a solver query over the code (DESIGN.md section 6); exhausting 2^32 inputs would be enumeration, a different technique',
